@@ -7,11 +7,15 @@
                            AddLink | RemoveLink | SetLinks | AddComponent | RemoveComponent | AddData |
                            RemoveData | SetCoordsNone | DelayBegin | DelayEnd   with the implemented triggers
    Part 4  wire          : run_case
+   Part 6  generated     : the functions of glue/core/link_manager.py as TRANSLATED on every run (coq/gen/Gen_links.v),
+                           instantiated at the model's types; run_case tags 3-5 run them (the correspondence stream
+                           `gen_*` of the harness compares them with the live code); C03/GenEquiv.v proves that they
+                           compute what part 1 computes
 
    Definitions only; every proof is in Lemmas*.v. *)
 From Coq Require Import ZArith List Bool Arith.
 Import ListNotations.
-From GV Require Import Common.Wire.
+From GV Require Import Common.Wire Common.PyInt gen.Gen_links.
 Open Scope Z_scope.
 
 (* ------------------------------------------------------------------ part 1: discover *)
@@ -467,8 +471,93 @@ Fixpoint run_obs (vs : vals) (universe : list cid) (sel : cid) (thr : Z) (s : st
 Definition enc_table (own : list cid) (t : table) : tree :=
   T 0 (map (fun kv => T 0 [enc_cid (fst kv); leaf (Z.of_nat (fst (snd kv))); leaf (l_id (snd (snd kv)))]) t).
 
+(* ------------------------------------------------------------------ part 6: the translated functions at the model's types *)
+
+(* a dataset as the translated functions see it: main_components, coordinate_components, and the links of its derived
+   components (Data.derived_components lists their targets, get_component(c).link is the link that targets c) *)
+Record gdata := mkgdata { g_main : list cid; g_coord : list cid; g_der : list link }.
+Definition link_eqb (a b : link) : bool := l_id a =? l_id b.       (* `is` on link objects: l_id names the object *)
+Definition no_link : link := mklink (-1) [] (-1, -1) (mkfn 0 []).
+Definition g_component (d : gdata) (c : cid) : link :=
+  match find (fun l => cid_eqb c (l_to l)) (g_der d) with Some l => l | None => no_link end.
+
+(* accessible_links(cids, links) *)
+Definition g_accessible (cids : list cid) (links : list link) : list link :=
+  accessible_links cid link cid_eqb l_from cids links.
+
+(* discover_links(data, links); [iter] is the order in which a Python set is iterated *)
+Definition g_discover_with (iter : list cid -> list cid) (fuel : nat) (d : gdata) (links : list link)
+  : result (list (cid * link)) :=
+  discover_links cid link gdata cid_eqb l_from l_to g_main g_coord iter fuel d links.
+Definition g_discover (d : gdata) (links : list link) : result (list (cid * link)) :=
+  g_discover_with (fun s => s) (fuel_for links) d links.
+
+(* find_dependents(data, link) *)
+Definition g_find_dependents (fuel : nat) (d : gdata) (l : link) : result (list cid) :=
+  find_dependents cid link link gdata cid_eqb link_eqb link_eqb l_from l_to (fun d => map l_to (g_der d)) g_component
+                  (fun k => k) fuel d l.
+
+(* the dict cid_links that discover_links returns, read off the hand model's table, and back (the depth column is
+   not returned by the code and is not used by eval / read / select) *)
+Definition links_of_table (t : table) : list (cid * link) := map (fun kv => (fst kv, snd (snd kv))) t.
+Definition table_of_links (r : list (cid * link)) : table := map (fun kv => (fst kv, (0%nat, snd kv))) r.
+(* an iteration order for Python sets: any enumeration with the same elements *)
+Definition iter_ok (iter : list cid -> list cid) : Prop := forall s c, In c (iter s) <-> In c s.
+
+(* the LinkManager methods, translated: entries of _external_links are named by their ids (Python object identity),
+   `cid in link` is entry_touches on the entry the id names, ComponentID.parent is the dataset half of a cid *)
+Definition pool_entry (pool : list entry) (i : Z) : entry :=
+  match find (fun e => e_id e =? i) pool with Some e => e | None => mkent i false None [] end.
+Definition pool_touches (pool : list entry) (i : Z) (c : cid) : bool := entry_touches c (pool_entry pool i).
+Definition gevent := event cid link gdata.
+(* LinkManager._component_removed(msg), msg.component_id = c *)
+Definition g_component_removed (pool : list entry) (ext : list Z) (c : cid) : result (list Z * list (event cid link Z) * unit) :=
+  lm_component_removed cid link Z Z cid Z.eqb (pool_touches pool) (fun m => m) ext [] c.
+(* LinkManager._data_removed(msg), msg.data = dataset d whose .components are cs *)
+Definition g_data_removed (pool : list entry) (ext : list Z) (d : Z) (cs : list cid) : result (list Z * list (event cid link Z) * unit) :=
+  lm_data_removed cid link Z Z Z Z.eqb Z.eqb (fun _ => cs) (fun c : cid => fst c) (pool_touches pool) (fun m => m) ext [] d.
+(* the loop of update_externally_derivable_components over the datasets dc, with self._links | self._inverse_links = L *)
+Definition g_update (iter : list cid -> list cid) (fuel : nat) (L : list link) (dc : list gdata) : result (list Z * list gevent * unit) :=
+  lm_update_loop cid link Z gdata cid_eqb l_from l_to g_main g_coord L iter fuel [] [] dc.
+(* what the loop installs on dataset d when discover gives table t: cid -> DerivedComponent(d, link) *)
+Definition installed (d : gdata) (t : table) : list (cid * (gdata * link)) := map (fun kv => (fst kv, (d, snd (snd kv)))) t.
+
+(* a dataset of the manager model as the translated functions see it *)
+Definition gdata_of (d : dataset) : gdata := mkgdata (d_own d) [] (d_der d).
+
+Definition enc_event {D} (ev : event cid link D) : tree :=
+  match ev with
+  | EvUpdate _ _ _ => T 0 []
+  | EvSet _ _ _ _ comps => T 1 (map (fun kv => T 0 [enc_cid (fst kv); leaf (l_id (snd (snd kv)))]) comps)
+  end.
+Definition enc_lm {D} (r : list Z * list (event cid link D) * unit) : tree :=
+  T 0 [zs (fst (fst r)); T 0 (map enc_event (snd (fst r)))].
+
+Definition enc_result {A} (enc : A -> tree) (r : result A) : tree :=
+  match r with Ok a => T 1 [enc a] | Err e => err e end.
+
 Definition run_case (t : tree) : tree :=
   match t with
+  | T 3 [maint; coordt; linkst] =>
+    (* generated discover_links *)
+    enc_result (fun tb => T 0 (map (fun kv => T 0 [enc_cid (fst kv); leaf (l_id (snd kv))]) tb))
+               (g_discover (mkgdata (dec_cids maint) (dec_cids coordt) []) (map dec_link (kids linkst)))
+  | T 4 [cidst; linkst] =>
+    (* generated accessible_links *)
+    zs (map l_id (g_accessible (dec_cids cidst) (map dec_link (kids linkst))))
+  | T 6 [poolt; extt; ct] =>
+    enc_result enc_lm (g_component_removed (map dec_entry (kids poolt)) (to_zs extt) (dec_cid ct))
+  | T 7 [poolt; extt; T dd _; cst] =>
+    enc_result enc_lm (g_data_removed (map dec_entry (kids poolt)) (to_zs extt) dd (dec_cids cst))
+  | T 8 [dct; linkst] =>
+    let L := map dec_link (kids linkst) in
+    enc_result enc_lm (g_update (fun s => s) (fuel_for L) L
+                                (map (fun dt => mkgdata (dec_cids (kid 0 dt)) (dec_cids (kid 1 dt)) []) (kids dct)))
+  | T 5 [dert; lt] =>
+    (* generated find_dependents; fuel: every iteration but the last marks one more derived component as visited *)
+    let der := map dec_link (kids dert) in
+    enc_result (fun cs => T 0 (map enc_cid cs))
+               (g_find_dependents (S (S (length der))) (mkgdata [] [] der) (dec_link lt))
   | T 1 [dss; vst; selt; opst] =>
     (* a history: datasets, values, the selection, the operations; DataCollection(initial members) syncs once *)
     let vs := map (fun kv => (dec_cid (kid 0 kv), to_zs (kid 1 kv))) (kids vst) in
